@@ -29,7 +29,7 @@ V4Valid(x) == Len(x.parts) = 4 /\ x.sep = "." /\ \A i \in 1..4 : OctetOK(x.parts
 Groups == {"0", "1", "a", "ffff", "FFFF", "0000", "1234", "fffff", "g", "12345", ""}
 GroupOK(g) == g \in {"0", "1", "a", "ffff", "FFFF", "0000", "1234"}
 \* x.left / x.right: groups before / after the "::" (dc = TRUE) or all groups in left (dc = FALSE)
-\* x.tail: "none" | "v4ok" | "v4bad" (dotted quad as the last element, worth two groups)
+\* x.tail: "none" | "v4ok" | "v4long" | "v4bad" (dotted quad as the last element, worth two groups)
 \* x.scope: "none" | "empty" | "1" | "15" | "16" | "slash"
 V6Cases ==
    {[k |-> "ipv6", left |-> [i \in 1..n |-> "1"], right |-> <<>>, dc |-> FALSE, tail |-> t, scope |-> "none"] :
@@ -44,6 +44,9 @@ V6Cases ==
        s \in {"none", "empty", "1", "15", "16", "17", "two_percent", "double_percent"}}
 \cup {[k |-> "ipv6", left |-> <<"1", "2", "3", "4", "5", "6", "7", "8">>, right |-> <<>>, dc |-> FALSE, tail |-> "none", scope |-> s] :
        s \in {"none", "empty", "1", "15", "16", "two_percent", "double_percent"}}
+\* the longest spellings there are: six four-digit groups and a dotted quad of twelve digits (45 characters), scoped or not
+\cup {[k |-> "ipv6", left |-> [i \in 1..6 |-> g], right |-> <<>>, dc |-> FALSE, tail |-> "v4long", scope |-> s] :
+       g \in {"0000", "ffff", "1234"}, s \in {"none", "15", "16"}}
 V6Width(x) == Len(x.left) + Len(x.right) + (IF x.tail = "none" THEN 0 ELSE 2)
 V6Valid(x) ==
   /\ \A i \in 1..Len(x.left) : GroupOK(x.left[i]) \/ x.left[i] \in {"fe80", "2", "3", "4", "5", "6", "7", "8"}
